@@ -2154,3 +2154,79 @@ Section Independent.
     = (m <- GR3 rng st a req ;; ER4 es m, m <- GR3 rng' st a req ;; ER4 es m).
   Proof. reflexivity. Qed.
 End Independent.
+
+(* ====================================================================== *)
+(* op histories: decoding slot j gives the j-th encoded value, whatever was
+   encoded later.  Trivial in the pure model (a stored byte string cannot
+   change) — which is the point: the harness runs the same histories on the
+   Go encoders, holding the returned slices, and must observe the same
+   decoded values; an encoder whose result aliases a reused buffer disagrees. *)
+Section HistoryThm.
+  Variable decompress : curve -> N -> bool -> option (N * N).
+  Variable c : curve.
+
+  Definition wf_value (v : value) : Prop :=
+    match v with
+    | VR1 m => wf_r1 c m | VR2 m => wf_r2 decompress c m | VR3 m => wf_r3 m
+    | VGS s => wf_gs c s | VES s => wf_es c s
+    end.
+
+  Definition stored (v : value) : vkind * res bytes := (kind_of v, encode_value c v).
+
+  Lemma decode_stored v : wf_value v ->
+    match stored v with (k, Ok b) => decode_kind decompress c k b = Ok v | _ => False end.
+  Proof.
+    destruct v as [m|m|m|s|s]; intros W; cbn [stored kind_of encode_value decode_kind].
+    - destruct (r1_roundtrip c m W) as (b & -> & D & _). rewrite D. reflexivity.
+    - destruct (r2_roundtrip decompress c m W) as (b & -> & D & _). rewrite D. reflexivity.
+    - destruct (r3_roundtrip m W) as (b & -> & D & _). rewrite D. reflexivity.
+    - destruct (gs_roundtrip c s W) as (b & -> & D & _). rewrite D. reflexivity.
+    - destruct (es_roundtrip c s W) as (b & -> & D & _). rewrite D. reflexivity.
+  Qed.
+
+  Lemma decode_slot_stored vals j : Forall wf_value vals ->
+    decode_slot decompress c (map stored vals) j
+    = match nth_error vals j with Some v => Ok v | None => Err end.
+  Proof.
+    intros F. unfold decode_slot. rewrite nth_error_map.
+    destruct (nth_error vals j) as [v|] eqn:E; cbn [option_map]; [|reflexivity].
+    assert (W : wf_value v) by (eapply Forall_forall; [exact F|eapply nth_error_In; exact E]).
+    pose proof (decode_stored v W) as D. destruct (stored v) as [k [b| |]]; [exact D|contradiction|contradiction].
+  Qed.
+
+  (* what a history must print: slot j holds the j-th encoded value *)
+  Fixpoint history_spec (vals : list value) (ops : list hop) : list (res value) :=
+    match ops with
+    | [] => []
+    | HEnc v :: t => history_spec (vals ++ [v]) t
+    | HDec j :: t => (match nth_error vals j with Some v => Ok v | None => Err end) :: history_spec vals t
+    end.
+
+  Definition hop_wf (o : hop) : Prop := match o with HEnc v => wf_value v | HDec _ => True end.
+
+  Theorem history_decodes_own_value : forall ops vals,
+    Forall wf_value vals -> Forall hop_wf ops ->
+    run_history decompress c (map stored vals) ops = history_spec vals ops.
+  Proof.
+    induction ops as [|[v|j] ops IH]; intros vals Fv Fo; [reflexivity| |];
+      inversion Fo as [|? ? Ho Fo']; subst; cbn [run_history history_spec].
+    - change [(kind_of v, encode_value c v)] with (map stored [v]). rewrite <- map_app.
+      apply IH; [apply Forall_app; split; [exact Fv|constructor; [exact Ho|constructor]]|exact Fo'].
+    - rewrite decode_slot_stored by exact Fv. f_equal. apply IH; assumption.
+  Qed.
+
+  (* in particular: a later encode never changes what an earlier slot decodes to *)
+  Corollary later_encodes_do_not_matter vals more j v :
+    Forall wf_value vals -> Forall wf_value more -> nth_error vals j = Some v ->
+    run_history decompress c (map stored vals) (map HEnc more ++ [HDec j]) = [Ok v].
+  Proof.
+    intros Fv Fm E. rewrite history_decodes_own_value; [|exact Fv|].
+    - revert vals Fv E. induction more as [|w more IH]; intros vals Fv E; cbn [map app history_spec].
+      + rewrite E. reflexivity.
+      + inversion Fm; subst. apply IH; [assumption|apply Forall_app; split; [exact Fv|repeat constructor; assumption]|].
+        rewrite nth_error_app1; [exact E|]. apply nth_error_Some. congruence.
+    - apply Forall_app. split; [|repeat constructor].
+      apply Forall_forall. intros o Ho. apply in_map_iff in Ho. destruct Ho as (w & <- & Hw).
+      eapply Forall_forall in Fm; [exact Fm|exact Hw].
+  Qed.
+End HistoryThm.
